@@ -8,6 +8,7 @@ import (
 	"fmt"
 	"os"
 	"sort"
+	"strings"
 	"testing"
 	"time"
 
@@ -2289,6 +2290,16 @@ func (wd *world) opSplit(op Op, step int) error {
 	if callErr != nil || len(txn.SiacoinInputs) == 0 {
 		if callErr != nil {
 			wd.cs.Class("split=error")
+			// the wallet signs its own split transaction: whatever else may
+			// refuse the call, a transaction whose own signature does not
+			// satisfy the wallet's spend policy is an invalid spend built by
+			// the wallet
+			if msg := callErr.Error(); strings.Contains(msg, "failed to broadcast split transaction") {
+				wd.cs.Class("split=error:own-transaction-refused-by-the-pool")
+				if strings.Contains(msg, "spend policy") || strings.Contains(msg, "signature") {
+					return fmt.Errorf("%s: the wallet's own split transaction was refused for its signature: %v", where, callErr)
+				}
+			}
 		} else {
 			wd.cs.Class("split=nothing-to-do")
 			if len(txn.SiacoinOutputs) != 0 {
